@@ -140,3 +140,62 @@ Section Classes.
     intros H1 H2. rewrite (spec_chain_bridge true sets chains H1). symmetry. now apply spec_mainline_bridge.
   Qed.
 End Classes.
+
+(** * Statements as they appear in Properties.v *)
+Lemma separate_eq_spec (o : oracles) sets : perm_oracles o -> maps sets ->
+  (forall k, klookup k (fst (separate o sets)) = klookup k (unconflicted sets))
+  /\ (forall x, In x (List.concat (map snd (snd (separate o sets)))) <-> In x (conflicted_events sets)).
+Proof.
+  intros Ho Hm. split.
+  - intros k. now rewrite (separate_clean_spec o Ho sets Hm), unconflicted_lookup.
+  - intros x. apply (separate_conflicted_spec o Ho sets Hm).
+Qed.
+
+(** The class of the open finding C07-mainline-no-ancestor, for one call of [mainline_sort]. *)
+Definition mainline_class (st : store) (ml rest : list id) : bool :=
+  existsb (fun i => known st i && negb (is_some (position st ml i))) rest
+  && existsb (fun i => known st i && opt_Z_eqb (position st ml i) (Some (Z.of_nat (List.length ml) - 1)%Z)) rest.
+
+Lemma mainline_eq_spec (st : store) (rank : id -> nat) (o : oracles) to_sort pl :
+  (forall i e a, fetch st i = Some e -> In a (e_auth e) -> (rank a < rank i)%nat) ->
+  (forall i, known st i = true -> (rank i < List.length st)%nat) ->
+  (forall i e a, fetch st i = Some e -> In a (e_auth e) -> known st a = true) ->
+  perm_oracles o -> NoDup to_sort -> (forall i, In i to_sort -> known st i = true) ->
+  (forall p, pl = Some p -> known st p = true) ->
+  mainline_class st (mainline st pl) to_sort = false ->
+  mainline_sort st o to_sort pl = Ok (mainline_ordering st true (mainline st pl) to_sort).
+Proof.
+  intros Hrank Hbound Hak Ho Hnd Hk Hpl Hcl.
+  rewrite (mainline_sort_eq st rank o to_sort pl Hrank Hbound Hak Ho Hnd Hk Hpl).
+  f_equal. symmetry. unfold mainline_class in Hcl.
+  exact (ordering_eq st (fun _ _ => true) (fun _ => None) rank Hrank Hbound _ _ Hcl).
+Qed.
+
+Lemma resolve_eq_spec_partial
+  (st : store) (auth : event -> (key -> option event) -> bool) (auth_types : event -> option (list key))
+  (rank : id -> nat) (c : id) (ce : event) (cr : str) (sets : list smap) (chains : list (list id)) (o : oracles) :
+  (forall i e a, fetch st i = Some e -> In a (e_auth e) -> (rank a < rank i)%nat) ->
+  (forall i, known st i = true -> (rank i < List.length st)%nat) ->
+  (forall i e a, fetch st i = Some e -> In a (e_auth e) -> known st a = true) ->
+  all_state_events st ->
+  (forall i e, fetch st i = Some e -> auth_keys_unique st e) ->
+  auth_local auth auth_types ->
+  h_create st c ce cr -> pl_wf st ->
+  (forall i e, fetch st i = Some e -> i <> c -> In c (e_auth e)) ->
+  (forall full control, build_graph st full control <> None) ->
+  maps sets -> (forall ch, In ch chains -> NoDup ch) ->
+  (forall s k i, In s sets -> In (k, i) s -> known st i = true) ->
+  (conflicted_events sets = [] -> auth_difference chains = []) ->
+  perm_oracles o ->
+  class_chain st sets chains = false ->
+  class_mainline st auth auth_types false sets chains = false ->
+  exists m R, resolve st auth auth_types o sets chains = Ok m
+              /\ resolve_spec st auth auth_types true true sets chains = Some R
+              /\ forall k, klookup k m = klookup k R.
+Proof.
+  intros Hrank Hbound Hak Hstate Huniq Hlocal Hc Hwf Hcite Hfuel Hm Hch Hsk Hchains Ho Hc1 Hc2.
+  destruct (resolve_eq_spec_dev st auth auth_types rank Hrank Hbound Hak Hstate Huniq Hlocal c ce cr Hc Hwf Hcite Hfuel
+              sets chains Hm Hch Hsk Hchains o Ho) as (m & R & Em & ER & HmR).
+  exists m, R. split; [exact Em|]. split; [|exact HmR].
+  now rewrite <- (spec_dev_eq_lit st auth auth_types rank Hrank Hbound sets chains Hc1 Hc2).
+Qed.
